@@ -25,7 +25,7 @@ TAILS = {
 def run(tier, rep):
     thorough = tier == 'thorough'
     corp = emit.specs('quick')
-    chosen = sorted(TAILS) if thorough else [1, 7, 8, 9, 17]
+    chosen = sorted(TAILS) if thorough else [0, 1, 7, 8, 9, 17]
     pads = [0, 1, 4090, 4093, 4094, 4095, 4096, 4097, 8190, 8191, 8192] if thorough else [0, 4094, 4095, 4096]
     n = 3 if thorough else 2
     with Scratch() as sc:
